@@ -192,6 +192,78 @@ def canonicalise(tree):
                     changed = True
 
 
+def sink_returns(tree):
+    """`if c: T = A else: T = B` immediately followed by `return T`, T used nowhere else  ->  `if c: return A else: return B`
+    (recursively through nested if / else; every leaf must end in an assignment of T).  A function written with one exit and a result
+    variable is the same program as the one with a return per case; rules look at return paths."""
+    done = 0
+    for fn in [n for n in ast.walk(tree) if isinstance(n, (ast.FunctionDef, ast.AsyncFunctionDef))]:
+        changed = True
+        while changed:
+            changed = False
+            names_load, names_store = {}, {}
+            for x in ast.walk(fn):
+                if isinstance(x, ast.Name):
+                    (names_load if isinstance(x.ctx, ast.Load) else names_store).setdefault(x.id, []).append(x)
+            for node in ast.walk(fn):
+                for field in ("body", "orelse", "finalbody"):
+                    block = getattr(node, field, None)
+                    if not (isinstance(block, list) and len(block) >= 2 and isinstance(block[0], ast.stmt)):
+                        continue
+                    for k in range(len(block) - 1):
+                        st, rt = block[k], block[k + 1]
+                        if not (isinstance(st, ast.If) and isinstance(rt, ast.Return) and isinstance(rt.value, ast.Name)):
+                            continue
+                        T = rt.value.id
+                        if len(names_load.get(T, [])) != 1:
+                            continue
+
+                        def leaves(stmts):
+                            """assignments of T that end every path through stmts, or None"""
+                            if not stmts:
+                                return None
+                            last = stmts[-1]
+                            if isinstance(last, ast.Assign) and len(last.targets) == 1 and isinstance(last.targets[0], ast.Name) and last.targets[0].id == T:
+                                return [(stmts, last)]
+                            if isinstance(last, ast.If) and last.orelse:
+                                a, b = leaves(last.body), leaves(last.orelse)
+                                if a is None or b is None:
+                                    return None
+                                return a + b
+                            return None
+                        a, b = leaves(st.body), (leaves(st.orelse) if st.orelse else None)
+                        if a is None or b is None:
+                            continue
+                        lv = a + b
+                        if len(names_store.get(T, [])) != len(lv):
+                            # an initial default `T = <constant>` before the if is tolerated and dropped
+                            extra = [x for x in names_store.get(T, []) if not any(x is l_[1].targets[0] for l_ in lv)]
+                            ok_extra = True
+                            for x in extra:
+                                par_ok = False
+                                for j in range(k):
+                                    pj = block[j]
+                                    if isinstance(pj, ast.Assign) and len(pj.targets) == 1 and pj.targets[0] is x and isinstance(pj.value, ast.Constant):
+                                        par_ok = True
+                                if not par_ok:
+                                    ok_extra = False
+                            if not ok_extra:
+                                continue
+                            block[:] = [pj for pj in block if not (isinstance(pj, ast.Assign) and len(pj.targets) == 1 and isinstance(pj.targets[0], ast.Name)
+                                                                   and pj.targets[0].id == T and isinstance(pj.value, ast.Constant) and pj is not st)]
+                        for (blk, asg) in lv:
+                            blk[blk.index(asg)] = ast.copy_location(ast.Return(value=asg.value), asg)
+                        block.remove(rt)
+                        changed = True
+                        done += 1
+                        break
+                    if changed:
+                        break
+                if changed:
+                    break
+    return done
+
+
 def _pure_self_chain(e, selfname):
     """self.a / self.a.b ... (attribute chain on the receiver, no call, no subscript)"""
     depth = 0
@@ -239,9 +311,21 @@ def uncache_attribute_locals(tree):
                     if not (isinstance(block, list) and block and isinstance(block[0], ast.stmt)):
                         continue
                     for k, st in enumerate(block):
-                        if not (isinstance(st, ast.Assign) and len(st.targets) == 1 and isinstance(st.targets[0], ast.Name)
-                                and _pure_self_chain(st.value, selfname)):
+                        if not (isinstance(st, ast.Assign) and len(st.targets) == 1 and isinstance(st.targets[0], ast.Name)):
                             continue
+                        if not _pure_self_chain(st.value, selfname):
+                            # a chain on another name (`coefficient = component_grid.coefficient`): the same, provided that name is not
+                            # re-bound in the statements that follow in this block (they contain all uses)
+                            root = st.value
+                            depth = 0
+                            while isinstance(root, ast.Attribute):
+                                root = root.value
+                                depth += 1
+                            if not (depth >= 1 and isinstance(root, ast.Name) and root.id != st.targets[0].id):
+                                continue
+                            if any(isinstance(n, ast.Name) and n.id == root.id and isinstance(n.ctx, (ast.Store, ast.Del))
+                                   for later in block[k + 1:] for n in ast.walk(later)):
+                                continue
                         x = st.targets[0].id
                         if x in params or x in nested_names or len(stores.get(x, [])) != 1:
                             continue
@@ -532,6 +616,7 @@ class ModuleInfo:
         unfold_any_over_local_function(self.tree)
         uncache_attribute_locals(self.tree)
         canonicalise(self.tree)
+        sink_returns(self.tree)
         self.star_imports = []     # module names (package-local or external)
         self.names = {}            # local name -> ('class'|'func'|'module'|'external'|'var', target)
         self.classes = {}          # simple name -> ClassInfo (top level)
@@ -629,6 +714,7 @@ class Program:
         if self.inlined:
             for mi in self.modules.values():
                 canonicalise(mi.tree)
+                sink_returns(mi.tree)
         self._set_parents()
 
     # ------------------------------------------------------------------ load
